@@ -15,6 +15,7 @@
 (*   prepost   ! a P ,  ! a P Q       postfix forms after prefix forms        *)
 (*   postbin   a P X b ,  a X b P     postfix forms against binary operators  *)
 (*   prepostbin ! a P X b , ! a X b P                                         *)
+(*   postpost  a P Q ,  a X b P Q     two postfix forms in a row               *)
 (*   adj       a S1..Sk b , a S1..Sk  every string of k <= AdjLen pure        *)
 (*             operator symbols, written with blanks (tokens as written) and  *)
 (*             without (tokens = Lex of the characters)                       *)
@@ -61,7 +62,7 @@ TripleSel == IF Thorough THEN TripleIdx
 TripleSet == {Plain("triple", <<A, BT(t[1]), B, BT(t[2]), C, BT(t[3]), D>>) : t \in TripleSel}
 
 PreBinSet == {Plain("prebin", <<PT(p), A, BT(x), B>>) : p \in 1..NP, x \in 1..NB}
-BinPreSet == {Plain("binpre", <<A, BT(x), PT(p), B>>) : p \in 1..NP, x \in 1..NB}
+BinPreSet == {c \in {Plain("binpre", <<A, BT(x), PT(p), B>>) : p \in 1..NP, x \in 1..NB} : Settled(c.toks)}
 PrePostSet == {Plain("prepost", <<PT(p), A, QT(q)>>) : p \in 1..NP, q \in 1..NQ}
               \cup {c \in {Plain("prepost", <<PT(p), A, QT(q), QT(r)>>) : p \in 1..NP, q \in 1..NQ, r \in 1..NQ} :
                       Determined(c.toks)}
@@ -70,8 +71,14 @@ PostBinSet == {Plain("postbin", <<A, QT(q), BT(x), B>>) : q \in 1..NQ, x \in 1..
 PrePostBinSet == {Plain("prepostbin", <<PT(p), A, QT(q), BT(x), B>>) : p \in 1..NP, q \in 1..NQ, x \in 1..NB}
                  \cup {Plain("prepostbin", <<PT(p), A, BT(x), B, QT(q)>>) : p \in 1..NP, q \in 1..NQ, x \in 1..NB}
 
+\* two postfix forms in a row, alone and after a binary operator (where the table settles it)
+PostPostSet == {c \in {Plain("postpost", <<A, QT(q), QT(r)>>) : q \in 1..NQ, r \in 1..NQ}
+                       \cup {Plain("postpost", <<A, BT(x), B, QT(q), QT(r)>>) : x \in 1..NB, q \in 1..NQ, r \in 1..NQ} :
+                  Determined(c.toks)}
+
 PlainCases == SetToSeq(PairSet) \o SetToSeq(TripleSet) \o SetToSeq(PreBinSet) \o SetToSeq(BinPreSet)
               \o SetToSeq(PrePostSet) \o SetToSeq(PostBinSet) \o SetToSeq(PrePostBinSet)
+              \o SetToSeq(PostPostSet)
 NPlain == Len(PlainCases)
 
 \* ------------------------------------------------------------ adjacency family
@@ -84,14 +91,17 @@ RunChars(r) == IF Len(r) = 1 THEN r[1].cs
                ELSE IF Len(r) = 2 THEN r[1].cs \o r[2].cs
                ELSE r[1].cs \o r[2].cs \o r[3].cs
 RunNames(r) == [j \in 1..Len(r) |-> r[j].n]
-\* the documentation's `? type' with the type `!' (never) makes `?' followed by `!' a level-1
-\* form, not the filter operator followed by NOT; the table does not settle it: left out
-QuestionBang(chars) == \E i \in 1..(Len(chars) - 1) : chars[i] = "?" /\ chars[i + 1] = "!"
+\* `?' followed by `!' is not settled by the table (see Settled in Prec); left out.  Likewise `//' and `/* .. */' open comments, which are not operators at all
+OutsideAlphabet(chars) == \E i \in 1..(Len(chars) - 1) :
+                          \/ chars[i] = "?" /\ chars[i + 1] = "!"
+                          \/ chars[i] = "/" /\ chars[i + 1] = "/"
+                          \/ chars[i] = "/" /\ chars[i + 1] = "*" /\
+                               \E j \in (i + 2)..(Len(chars) - 1) : chars[j] = "*" /\ chars[j + 1] = "/"
 Contexts == {"ab", "a"}
 AdjSpacedSet == {[fam |-> "adj_spaced", ctx |-> ctx, names |-> RunNames(r), chars |-> RunChars(r)] :
-                   ctx \in Contexts, r \in {x \in RunSet : ~QuestionBang(RunChars(x))}}
+                   ctx \in Contexts, r \in {x \in RunSet : ~OutsideAlphabet(RunChars(x))}}
 AdjCompactSet == {[fam |-> "adj_compact", ctx |-> ctx, names |-> <<>>, chars |-> ch] :
-                    ctx \in Contexts, ch \in {c \in {RunChars(r) : r \in RunSet} : ~QuestionBang(c)}}
+                    ctx \in Contexts, ch \in {c \in {RunChars(r) : r \in RunSet} : ~OutsideAlphabet(c)}}
 AdjCases == SetToSeq(AdjSpacedSet) \o SetToSeq(AdjCompactSet)
 NAdj == Len(AdjCases)
 NC == NPlain + NAdj
@@ -99,7 +109,7 @@ NC == NPlain + NAdj
 Wrap(ctx, names) == IF ctx = "ab" THEN <<"a">> \o names \o <<"b">> ELSE <<"a">> \o names
 AdjNames(c) == Wrap(c.ctx, IF c.fam = "adj_compact" THEN Lex(c.chars) ELSE c.names)
 AdjToks(c) == LET k == Classify(AdjNames(c))
-              IN IF Accepted(k) /\ Determined(k) THEN k ELSE <<>>
+              IN IF Accepted(k) /\ Determined(k) /\ Settled(k) THEN k ELSE <<>>
 
 IsPlain(i) == i <= NPlain
 CaseFam(i) == IF IsPlain(i) THEN PlainCases[i].fam ELSE AdjCases[i - NPlain].fam
@@ -126,7 +136,7 @@ Grouped == vToks # <<>>
 
 \* laws ---------------------------------------------------------------------
 \* the cases are inside the module's domain and Group always finds a legal split
-InvDomain == AtStart /\ Grouped => WellFormed(vToks) /\ Determined(vToks) /\ GroupSplitOk(vToks)
+InvDomain == AtStart /\ Grouped => InDomain(vToks) /\ GroupSplitOk(vToks)
 \* Group uses every token exactly once, in order
 InvTokensOnce == AtStart /\ Grouped => Toks(Group(vToks)) = vToks
 \* the table determines exactly one tree, and it is Group's
@@ -146,7 +156,8 @@ InvTable == AtStart /\ vCase = 1 => TableIsFunction /\ NamesAreChars /\ NeverSpl
 
 \* ------------------------------------------------------------ emission
 Out == IOEnv.VERIF_OUT
-Fams == {"pair", "triple", "prebin", "binpre", "prepost", "postbin", "prepostbin", "adj_spaced", "adj_compact"}
+Fams == {"pair", "triple", "prebin", "binpre", "prepost", "postbin", "prepostbin", "postpost",
+         "adj_spaced", "adj_compact"}
 Emit ==
   /\ TLCGet("stats").distinct > 0
   /\ ndJsonSerialize(Out \o "/prec_cases.ndjson",
@@ -154,6 +165,9 @@ Emit ==
            LET k == CaseToks(i)
            IN [id |-> i, fam |-> CaseFam(i), parts |-> CaseParts(i), sep |-> CaseSep(i),
                expect |-> ExpectOf(k), toks |-> [j \in 1..Len(k) |-> <<k[j].t, k[j].s>>]]])
+  /\ ndJsonSerialize(Out \o "/prec_lexicon.ndjson",
+        [i \in 1..Len(Table) |-> [fix |-> Table[i].fix, n |-> Table[i].n, txt |-> Table[i].txt,
+                                  nopre |-> SetToSeq(UnsettledPrefixAfter(Table[i].n))]])
   /\ PrintT(<<"COUNTS", ToJson([f \in Fams |-> Cardinality({i \in 1..NC : CaseFam(i) = f})])>>)
   /\ PrintT(<<"TABLE", ToJson([bin |-> NB, pre |-> NP, post |-> NQ, syms |-> Cardinality(SymRows),
                                cases |-> NC])>>)
